@@ -391,4 +391,240 @@ def _replay_dump(case, seed, via="read_lammps"):
         shutil.rmtree(tmp, ignore_errors=True)
 
 
-UNITS = [ReadLammps()]
+# =====================================================================================================
+# the frame loop
+
+
+class Wrapper(Unit):
+    """read_lammps_wrapper(file, ndim): one snapshot per frame of the file, in file order, nsnapshots = number of frames.
+    Callee contract of read_lammps (proved by the unit above): at the start of frame s < F it returns the snapshot of frame s and
+    leaves the handle at the start of frame s+1; at end of file it returns None.  The `while True` loop is verified with the written
+    invariant  snapshots == [frame 0 .. frame k-1]  and  nsnapshots == k  and  handle at start of frame k  (init / step / exit)."""
+    module = MOD
+    qualname = "read_lammps_wrapper"
+    prop = "C01"
+
+    def cases(self):
+        return ["d=2", "d=3"]
+
+    def setup(self, ctx, case):
+        from pyvc.interp import load_module, new_obj
+        d = int(case[2])
+        I = z3.IntSort()
+        F = ctx.int("F")
+        ctx.assume(F >= 1)
+        B = z3.Function("FRAMESTART", I, I)
+        NF = z3.Function("NATOMS", I, I)
+        ctx.array_fact("FRAMESTART", lambda s: z3.And(z3.Implies(s == 0, B(s) == 0), B(s + 1) == B(s) + 9 + NF(s)))
+        ctx.array_fact("NATOMS", lambda s: NF(s) >= 0)
+        cls = load_module("PyMatterSim.reader.reader_utils").get_class("SingleSnapshot")
+        made = {}
+
+        def frame_obj(s):
+            return new_obj(cls, dict(timestep=sv.SV(z3.Function("TSF", I, I)(sv.znum(s))), nparticle=sv.SV(NF(sv.znum(s))), _frame=s), frozen=True)
+
+        def line_fn(pos):
+            raise sv.EngineError("the wrapper is verified against read_lammps's contract, not its body")
+        ctx.state.files["dump.lammpstrj"] = (0, line_fn)
+        st = {"F": F, "B": B, "d": d, "frame_obj": frame_obj}
+        self._st = st
+        return ["dump.lammpstrj", d], {}, st
+
+    @property
+    def summaries(self):
+        unit = self
+
+        def read_lammps_contract(interp, args, kwargs):
+            from pyvc.state import Content, cur
+            f, nd = args[0], args[1]
+            st = unit._st
+            c = cur().heap[f.sid]
+            pos = c.data["pos"]
+            cur().require(sv.cmp("==", nd, st["d"]), "call:read_lammps:pre:ndim")
+            # which frame starts here?  pos must be FRAMESTART(s) for some s <= F (precondition of the callee contract)
+            s = None
+            if isinstance(pos, sv.SV) and z3.is_app(pos.t) and pos.t.decl().name() == "FRAMESTART":
+                s = sv.wrap(z3.simplify(pos.t.arg(0)))
+            elif sv.is_conc(pos) and pos == 0:
+                s = 0
+            if s is None:
+                raise sv.EngineError("read_lammps contract: the handle is not known to be at a frame start")
+            cur().require(sv.and_(sv.cmp(">=", s, 0), sv.cmp("<=", s, st["F"])), "call:read_lammps:pre:at-a-frame-start-or-eof")
+            if interp.decide(sv.cmp("==", s, st["F"])):
+                return None
+            d = dict(c.data)
+            d["pos"] = sv.SV(st["B"](sv.znum(sv.add(s, 1))))
+            cur().heap[f.sid] = Content("file", d, c.meta)
+            return st["frame_obj"](s)
+        return {f"{MOD}.read_lammps": read_lammps_contract}
+
+    @property
+    def loop_hints(self):
+        unit = self
+
+        def while_rule(interp, s, frame, state):
+            """written summary of `while True: snapshot = read_lammps(f, ndim); if not snapshot: break; append; count`"""
+            from pyvc.interp import Ref
+            from pyvc.loops import _SideGoal
+            from pyvc.state import Content, use_state
+            st = unit._st
+            F, B = st["F"], st["B"]
+            where = f"{frame.fname}:{s.lineno}"
+            f = frame.env.get("f")
+            lst = frame.env.get("snapshots")
+            ok_entry = isinstance(f, Ref) and f.kind == "file" and isinstance(lst, Ref) and lst.kind == "list"
+            if not ok_entry:
+                raise sv.EngineError("wrapper loop: unexpected entry state")
+
+            def set_state(stt, fr, k):
+                c = stt.heap[f.sid]
+                stt.heap[f.sid] = Content("file", dict(c.data, pos=(sv.SV(B(sv.znum(k))) if not (sv.is_conc(k) and k == 0) else 0)), c.meta)
+                stt.heap[lst.sid] = Content("list", A.SeqVal(k, lambda i: st["frame_obj"](i)))
+                fr.env["nsnapshots"] = k
+            # init: entry state is state(0)
+            with use_state(state):
+                init_ok = sv.and_(len(lst.content) == 0 if not isinstance(lst.content, A.SeqVal) else False,
+                                  sv.cmp("==", frame.env.get("nsnapshots"), 0), sv.cmp("==", state.heap[f.sid].data["pos"], 0))
+            state.side.append(_SideGoal("loop-init(frame loop)", sv.zb(init_ok) if isinstance(init_ok, sv.SV) else z3.BoolVal(bool(init_ok)), state.all_assumptions(), where))
+            # step: from state(k), 0 <= k < F, one body execution gives state(k+1) and does not leave the loop
+            k = sv.fresh_int("k")
+            st1, fr1 = state.fork(), frame.clone()
+            st1.pc = list(state.pc) + [sv.zb(sv.cmp(">=", k, 0)), sv.zb(sv.cmp("<", k, F))]
+            with use_state(st1):
+                set_state(st1, fr1, k)
+                outs = interp.exec_block_paths(s.body, fr1, st1)
+            goods = [(fr, stt) for fr, stt, out in outs if out[0] in ("normal", "continue")]
+            bad = [out for fr, stt, out in outs if out[0] not in ("normal", "continue")]
+            goal = z3.BoolVal(False)
+            if len(goods) == 1 and not bad:
+                fr2, st2 = goods[0]
+                with use_state(st2):
+                    c2 = st2.heap[lst.sid].data
+                    if isinstance(c2, A.SeqVal):
+                        last = c2.fn(k)
+                        tag = last.content.get("_frame") if isinstance(last, Ref) and last.kind == "obj" else None
+                        goal = sv.zb(sv.and_(sv.cmp("==", c2.length, sv.add(k, 1)), sv.cmp("==", tag, k) if tag is not None else False,
+                                             sv.cmp("==", fr2.env.get("nsnapshots"), sv.add(k, 1)),
+                                             sv.cmp("==", st2.heap[f.sid].data["pos"], sv.SV(B(sv.znum(sv.add(k, 1)))))))
+                        prev = sv.fresh_int("q")
+                        older = c2.fn(prev)
+                        otag = older.content.get("_frame") if isinstance(older, Ref) and older.kind == "obj" else None
+                        goal = z3.And(goal, sv.zb(sv.implies(sv.and_(sv.cmp(">=", prev, 0), sv.cmp("<", prev, k)), sv.cmp("==", otag, prev) if otag is not None else False)))
+                assum = st2.all_assumptions()
+            else:
+                assum = st1.all_assumptions()
+            state.side.append(_SideGoal("loop-step(frame loop)", goal, assum, where))
+            # exit: from state(F) the body breaks
+            st3, fr3 = state.fork(), frame.clone()
+            with use_state(st3):
+                set_state(st3, fr3, F)
+                outs3 = interp.exec_block_paths(s.body, fr3, st3)
+            exits = [(fr, stt) for fr, stt, out in outs3 if out[0] == "break"]
+            others = [out for fr, stt, out in outs3 if out[0] != "break"]
+            state.side.append(_SideGoal("loop-exit(frame loop ends exactly at end of file)", z3.BoolVal(len(exits) == 1 and not others), st3.all_assumptions(), where))
+            if len(exits) != 1:
+                raise sv.EngineError("wrapper loop: the loop does not end at end of file")
+            fr4, st4 = exits[0]
+            return [(fr4, st4, ("normal",))]
+        return {(f"{MOD}.read_lammps_wrapper", "while"): while_rule}
+
+    def clause_names(self, case):
+        return ["one-snapshot-per-frame-in-file-order", "nsnapshots=number-of-frames"]
+
+    def ensures(self, ctx, case, inp, out):
+        from pyvc.interp import Ref
+        res = out.value
+        F = inp["F"]
+        ok = isinstance(res, Ref) and res.kind == "obj" and res.cls is not None and res.cls.name == "Snapshots"
+        if not ok:
+            yield "one-snapshot-per-frame-in-file-order", False
+            yield "nsnapshots=number-of-frames", False
+            return
+        c = res.content
+        yield "nsnapshots=number-of-frames", sv.cmp("==", c["nsnapshots"], F)
+        lst = c["snapshots"]
+        content = lst.content if isinstance(lst, Ref) else None
+        if not isinstance(content, A.SeqVal):
+            yield "one-snapshot-per-frame-in-file-order", False
+            return
+        q = ctx.int("q")
+        el = content.fn(q)
+        tag = el.content.get("_frame") if isinstance(el, Ref) and el.kind == "obj" else None
+        yield "one-snapshot-per-frame-in-file-order", sv.and_(sv.cmp("==", content.length, F),
+                                                              sv.implies(sv.and_(sv.cmp(">=", q, 0), sv.cmp("<", q, F)), sv.cmp("==", tag, q) if tag is not None else False))
+
+    def replay(self, case, clause, model, seed):
+        d = int(case[2])
+        for cs in (f"d={d}/orth/x", f"d={d}/tri/x", f"d={d}/orth/xu"):
+            r = _replay_dump(cs, seed, via="wrapper")
+            if r.get("failed"):
+                return r
+        return r
+
+
+class Dispatch(Unit):
+    """DumpReader.read_onefile: the LAMMPS file type is read by read_lammps_wrapper(filename, ndim) and the result stored in .snapshots"""
+    module = "PyMatterSim.reader.dump_reader"
+    qualname = "DumpReader.read_onefile"
+    prop = "C01"
+
+    def setup(self, ctx, case):
+        DR = "PyMatterSim.reader.dump_reader"
+        o = ctx.obj(DR, "DumpReader", dict(filename="f.dump", ndim=3, filetype=ctx.enum("PyMatterSim.reader.reader_utils", "DumpFileType", "LAMMPS"),
+                                            moltypes=None, columnsids=None, snapshots=None))
+        return [o], {}, {"o": o}
+
+    summaries = {f"{MOD}.read_lammps_wrapper": (lambda interp, args, kwargs: ("WRAPPER-CALLED", tuple(args), tuple(sorted(kwargs.items()))))}
+
+    def clause_names(self, case):
+        return ["lammps-type-is-read-by-read_lammps_wrapper(filename,ndim)"]
+
+    def ensures(self, ctx, case, inp, out):
+        snaps = inp["o"].content.get("snapshots")
+        good = isinstance(snaps, tuple) and snaps and snaps[0] == "WRAPPER-CALLED"
+        if good:
+            args, kw = list(snaps[1]), dict(snaps[2])
+            fn = kw.get("file_name", args[0] if args else None)
+            nd = kw.get("ndim", args[1] if len(args) > 1 else None)
+            good = fn == "f.dump" and nd == 3 and len(args) + len(kw) == 2
+        yield "lammps-type-is-read-by-read_lammps_wrapper(filename,ndim)", bool(good)
+
+    def replay(self, case, clause, model, seed):
+        import importlib
+        import os
+        import shutil
+        import tempfile
+        D = importlib.import_module("PyMatterSim.reader.dump_reader")
+        RUm = importlib.import_module("PyMatterSim.reader.reader_utils")
+        tmp = tempfile.mkdtemp(prefix="pyvc-replay-")
+        try:
+            path = os.path.join(tmp, "a.dump")
+            with open(path, "w") as f:
+                f.write("ITEM: TIMESTEP\n7\nITEM: NUMBER OF ATOMS\n2\nITEM: BOX BOUNDS pp pp pp\n0 4\n0 4\n0 4\nITEM: ATOMS id type x y z\n2 1 1 1 1\n1 2 3 3 3\n")
+            r = D.DumpReader(path, ndim=3, filetype=RUm.DumpFileType.LAMMPS)
+            r.read_onefile()
+            s = r.snapshots
+            bad = s.nsnapshots != 1 or s.snapshots[0].timestep != 7 or list(s.snapshots[0].particle_type) != [2, 1]
+            return {"ran": True, "failed": bool(bad), "detail": "DumpReader(LAMMPS).read_onefile() on a one-frame file"}
+        except Exception as e:
+            return {"ran": True, "failed": True, "detail": f"raises {type(e).__name__}: {e}"}
+        finally:
+            shutil.rmtree(tmp, ignore_errors=True)
+
+
+UNITS = [ReadLammps(), Wrapper(), Dispatch()]
+
+
+MANIFEST = {
+    "text": "read_lammps (real AST, re-read every run) on a symbolic dump frame in the LAMMPS ITEM: grammar (symbolic atom number, atom lines in "
+            "any id order with arbitrary trailing columns, arbitrary bounds / tilts / coordinates; d in {2,3} x {orthogonal, triclinic} x "
+            "{x, xs, xu}): timestep, nparticle, particle_type[id-1], positions[id-1, :], boxlength, boxbounds, realbounds and hmatrix equal "
+            "the LAMMPS conventions (orthogonal L = hi-lo, H = diag L; triclinic bound->real conversion with min/max of the tilts, lower-"
+            "triangular H; xu verbatim; wrapped x of orthogonal cells moved by -L/0/+L and inside [lo,hi] when the excursion is at most one "
+            "box length; scaled coordinates mapped through the cell including its origin); the handle ends at the start of the next frame; "
+            "None at end of file.  read_lammps_wrapper: with read_lammps's contract as callee contract and a written invariant for the "
+            "`while True` loop (init/step/exit obligations), one snapshot per frame in file order and nsnapshots = number of frames for a "
+            "symbolic number of frames.  DumpReader.read_onefile dispatches the LAMMPS type to read_lammps_wrapper(filename, ndim).",
+    "note": "token/file model of pyvc/text.py assumed (a numeric token denotes a real number; readline/split/int/float/`in` on literal words); "
+            "assumed contracts of np.where, np.diag, np.vstack, reshape; ids are a bijection onto 1..N (well-formed dump); floats as reals (A1)",
+}
